@@ -193,14 +193,17 @@ def kind_cases(tier, rng, kinds, ops_fn, phases=("built", "loaded"), many=False,
                 for ph in phases:
                     pre = []
                     pops = ops
-                    if ph in ("loaded", "generic"):
+                    if ph == "loaded2":
+                        # second generation: save -> load -> save -> load
+                        pre = [["reload", "own", 1], ["reload", "own", 1]]
+                    elif ph in ("loaded", "generic"):
                         lopt = r.range(1, 3) if kind in ("HASHHF", "HASHRPF") else 1
                         pre = [["reload", "own" if ph == "loaded" else "generic", lopt]]
                         if lopt != 1:
                             # HashBdh/HashBBdh are load-only representations (known finding K5):
                             # saving them is exercised only by the dedicated k5 stream of C08
                             pops = [o for o in ops if o[0] not in SAVE_OPS]
-                    cid = "%s_%s_%s_%s_%s" % (name, dname, kind, "".join("%s%s" % kv for kv in sorted(pv.items())), ph[0])
+                    cid = "%s_%s_%s_%s_%s" % (name, dname, kind, "".join("%s%s" % kv for kv in sorted(pv.items())), {"built": "b", "loaded": "l", "generic": "g", "loaded2": "l2"}[ph])
                     cases.append((cid, "dict", kind, pv, S, pre + pops))
     return cases
 
@@ -313,7 +316,7 @@ def c06_ops(kind, pv, S, r):
 
 
 def c06_streams(tier, rng):
-    cases = kind_cases(tier, rng, ALL_KINDS, c06_ops, phases=("loaded", "generic"))
+    cases = kind_cases(tier, rng, ALL_KINDS, c06_ops, phases=("loaded", "generic", "loaded2"))
     # images are self-delimiting: the `reload` op appends a trailer and checks tellg
     return [StreamSet("persist", "asan", cases)]
 
